@@ -610,9 +610,9 @@ def run_init(c) -> CaseResult:
 
 CHECK = Check(
     id="C08",
-    parts=[Part("forms", run, strategy=cases, budget={"quick": 1200, "thorough": 25000}),
-           Part("unsupported", run_unsup, strategy=unsup_cases, budget={"quick": 60, "thorough": 300}),
-           Part("init", run_init, strategy=init_cases, budget={"quick": 400, "thorough": 6000})],
+    parts=[Part("forms", run, strategy=cases, budget={"quick": 3000, "thorough": 150000}),
+           Part("unsupported", run_unsup, strategy=unsup_cases, budget={"quick": 60, "thorough": 1500}),
+           Part("init", run_init, strategy=init_cases, budget={"quick": 1000, "thorough": 40000})],
     rule=("forms: Hypothesis over module class x every constructor option (constraint incl. None, mult, approximate, bias, "
           "stride/padding/dilation/groups, padding_mode in {zeros,reflect,replicate,circular}, eps, elementwise_affine, padding_idx, max_norm, "
           "ignore_index, reduction, dropout_p, is_causal, heads, expansion, layers) x train/eval x input shapes (float64). Oracle (a) the "
